@@ -120,13 +120,13 @@ def run_text(tier, seed, fails, mism, tags, samples, api_types=None):
                 outs[tgt] = e
                 lines.append(f"spec {tgt} {hx(src)} {fspec}".rstrip())
                 expect.append(e)
-                ctxs.append({"op": "spec", "target": tgt, "src": src, "files": files})
+                ctxs.append({"op": "spec", "target": tgt, "src": src, "files": files, "kind": kind})
                 tags["spec." + kind + "." + e.split()[0] + ("" if e.startswith("ok") else "." + e.split()[1])] += 1
             distinct.add(src)
             if kind == "api":
                 lines.append(f"seg {hx(src)}")
                 expect.append(("seg", src.count("/*gpuglmem*/"), sum(src.count(p) for p in PLACEHOLDERS)))
-                ctxs.append({"op": "seg", "target": "-", "src": src, "files": {}})
+                ctxs.append({"op": "seg", "target": "-", "src": src, "files": {}, "kind": "api"})
             text_oracles(src, files, outs, kind, fails, tags)
             for fn in files:
                 os.unlink(os.path.join(tmp, fn))
@@ -217,7 +217,7 @@ KSRC = """
 %(incl)s
 /*gpukern*/ void %(name)s(const int %(lim)s, /*gpuglmem*/ int32_t* cnt, /*gpuglmem*/ double* y){
   %(pre)s
-  int %(v)s = 0;//vectorize_over %(v)s %(lim)s
+  int %(v)s = 0;//vectorize_over %(v)s %(bound)s
     cnt[%(v)s] += 1;
 %(body)s
   //end_vectorize
@@ -243,6 +243,7 @@ int main(int argc, char** argv){
 def gen_kernel(r, k):
     v = r.choice(["tid", "ii", "part_id"])
     lim = r.choice(["n", "npart"])
+    bound = r.choice([lim, lim, lim + "/2", lim + "-1", lim + "-skip"])
     body, weights = [], {t: 0.0 for t in TARGETS}
     w = 1.0
     for _ in range(r.randrange(0, 4)):
@@ -266,9 +267,21 @@ def gen_kernel(r, k):
         body.append("#endif")
         for t in named:
             weights[t] += w
+        w *= 2
+        # an annotated line INSIDE the included file: active only where named (and only where the file is spliced)
+        named2 = r.sample(TARGETS, r.randrange(1, 4))
+        files[f"helper{k}.h"].append(f"#define HK{k}_EXTRA 1 //only_for_context " + " ".join(named2))
+        body.append(f"#ifdef HK{k}_EXTRA")
+        body.append(f"    y[{v}] += {w};")
+        body.append("#endif")
+        for t in named2:
+            if t in named:
+                weights[t] += w
     name = f"kern{k}"
-    src = KSRC % {"incl": incl, "name": name, "lim": lim, "v": v, "pre": "", "body": "\n".join(body)}
-    return name, lim, src, files, weights
+    src = KSRC % {"incl": incl, "name": name, "lim": lim, "bound": bound, "v": v,
+                  "pre": "const int skip = 2;" if "skip" in bound else "", "body": "\n".join(body)}
+    count = {lim: lambda n: n, lim + "/2": lambda n: n // 2, lim + "-1": lambda n: max(0, n - 1), lim + "-skip": lambda n: max(0, n - 2)}[bound]
+    return name, lim, src, files, weights, count, bound != lim
 
 
 def real_geometry(n, block):
@@ -326,7 +339,7 @@ def run_launch(tier, seed, fails, mism, tags, samples):
                 ctxs.append({"op": "exec", "n": m, "block": block, "target": tg})
     with common.scratch_cwd() as tmp:
         for k in range(nk):
-            name, lim, src, files, weights = gen_kernel(r, k)
+            name, lim, src, files, weights, count, expr_bound = gen_kernel(r, k)
             for fn, body in files.items():
                 open(os.path.join(tmp, fn), "w").write("\n".join(body) + "\n")
             ctx = {"op": "launch", "src": src, "files": files}
@@ -348,9 +361,11 @@ def run_launch(tier, seed, fails, mism, tags, samples):
                     getattr(c.kernels, name)(**{lim: n, "cnt": cnt, "y": y})
                     evals += 1
                     tags["launch." + cname] += 1
-                    check_counts(cname, n, cnt, y, weights[cname], fails, ctx, slack)
+                    check_counts(cname, n, cnt, y, weights[cname], fails, ctx, slack, count(n))
             # ---- host-simulated GPU forms, geometry from the real kernel classes
             for tg in ("opencl", "cuda", "cpu_serial"):
+                if tg == "opencl" and expr_bound:
+                    continue  # the OpenCL form has no guard: it is launched with global size == bound only
                 old = os.getcwd()
                 spec = specialize_source(src, tg, search_in_folders=[tmp])
                 if tg == "opencl":
@@ -381,7 +396,7 @@ def run_launch(tier, seed, fails, mism, tags, samples):
                     y = np.array([float(b) for _, b in rows])
                     evals += 1
                     tags["launch.host-" + tg] += 1
-                    check_counts("host-" + tg, n, cnt, y, weights[tg], fails, ctx, slack)
+                    check_counts("host-" + tg, n, cnt, y, weights[tg], fails, ctx, slack, count(n))
             if len(samples) < 6:
                 samples.append(f"kernel {name}: {src.strip()[:120]!r} sizes {sizes} block {block}")
     got = common.run_driver("spec", lines)
@@ -391,7 +406,8 @@ def run_launch(tier, seed, fails, mism, tags, samples):
     return len(lines) + evals, evals
 
 
-def check_counts(where, n, cnt, y, weight, fails, ctx, slack):
+def check_counts(where, n, cnt, y, weight, fails, ctx, slack, m=None):
+    n_call, n = n, (n if m is None else m)
     want = np.concatenate([np.ones(n, dtype=np.int64), np.zeros(len(cnt) - n, dtype=np.int64)])
     if not np.array_equal(np.asarray(cnt, dtype=np.int64), want):
         bad = [int(i) for i in np.nonzero(np.asarray(cnt, dtype=np.int64) != want)[0][:8]]
